@@ -38,7 +38,89 @@ def oracle(ctx, case, real, rt):
         ctx.violation("current_action() is not None after the whole program finished", case)
 
 
+def faulty_exit_case(ctx, i):
+    """Model-free: a destination (or ILogger) raising a BaseException while a block's END message is written must not
+    keep the context from being restored: whatever escapes `with action:`, current_action() afterwards is what it was."""
+    import contextvars
+    import eliot
+    from eliot import _output, _action
+
+    rng = ctx.rng("faulty-exit:%d" % i)
+    dst = _output.Logger._destinations
+    saved = (dst._destinations, dst._any_added, dst._globalFields)
+    dst.__init__()
+    problems = []
+    calls = [0]
+    fail_at = set(rng.sample(range(12), rng.randint(1, 4)))
+
+    def dest(message):
+        k = calls[0]
+        calls[0] += 1
+        if k in fail_at:
+            raise rng.choice([KeyboardInterrupt, SystemExit, GeneratorExit])("destination interrupted")
+
+    def block(depth):
+        before = _action.current_action()
+        kind = rng.random()
+        try:
+            if kind < 0.6:
+                with eliot.start_action(action_type="f:act%d" % depth) as a:
+                    if _action.current_action() is not a:
+                        problems.append("inside `with action:` current_action() is not that action")
+                    body(depth)
+            elif kind < 0.8:
+                a = eliot.start_action(action_type="f:ctx%d" % depth)
+                try:
+                    with a.context():
+                        body(depth)
+                finally:
+                    a.finish()
+            else:
+                a = eliot.start_action(action_type="f:run%d" % depth)
+                try:
+                    a.run(body, depth)
+                finally:
+                    a.finish()
+        except BaseException:  # noqa: the injected interruption, or the body's own exception
+            pass
+        finally:
+            if _action.current_action() is not before:
+                problems.append("after a block left by an exception raised while its end message was written, "
+                                "current_action() is not what it was before entry")
+
+    def body(depth):
+        for _ in range(rng.randint(0, 2)):
+            r = rng.random()
+            if r < 0.4 and depth < 3:
+                block(depth + 1)
+            elif r < 0.8:
+                eliot.log_message("f:msg", d=depth)
+            else:
+                raise ValueError("body")
+
+    def main():
+        eliot.add_destinations(dest)
+        for _ in range(rng.randint(1, 3)):
+            block(0)
+        if _action.current_action() is not None:
+            problems.append("current_action() is not None at the end")
+
+    try:
+        contextvars.Context().run(main)
+    except BaseException as e:  # noqa
+        problems.append("unexpected %s escaped the harness" % type(e).__name__)
+    finally:
+        dst._destinations, dst._any_added, dst._globalFields = saved
+    return problems, calls[0]
+
+
 def run(ctx):
+    for i in range(ctx.budget(150, 3000)):
+        problems, ncalls = faulty_exit_case(ctx, i)
+        ctx.case({"faulty_exit": i, "seed": ctx.seed}, nontrivial=ncalls >= 3, tags=["faulty-exit"], sample=(i < 1))
+        if problems:
+            ctx.violation(problems[0], {"faulty_exit": i, "seed": ctx.seed})
+            break
     syscorr.run_programs(ctx, ctx.budget(400, 12000), PROFILE, oracle, nontrivial=nontrivial,
                           compare=["outcome", "probeTypes", "ctxType"])
 
@@ -46,6 +128,13 @@ def run(ctx):
 def replay(ctx, obj):
     from .. import sysinterp
     case = obj["case"]
+    if "faulty_exit" in case:
+        ctx.seed = case["seed"]
+        problems, _ = faulty_exit_case(ctx, case["faulty_exit"])
+        print(problems)
+        if problems:
+            ctx.violation(problems[0], case)
+        return
     real, rt = sysinterp.run_case(case)
     print(real["outcome"], rt.checks[:3])
     oracle(ctx, case, real, rt)
